@@ -11,7 +11,7 @@ fn lo(t: &str) -> i64 { match t { "SINT" => -128, "INT" => -32768, "DINT" => -21
 fn hi(t: &str) -> i64 { match t { "SINT" => 127, "INT" => 32767, "DINT" => 2147483647, "USINT" | "BYTE" => 255, "UINT" | "WORD" => 65535, "BOOL" => 1, _ => 0 } }
 fn narrower(t: &str) -> Vec<&'static str> { match t { "INT" => vec!["INT", "SINT"], "DINT" => vec!["DINT", "INT", "SINT"], "UINT" => vec!["UINT", "USINT"], "WORD" => vec!["WORD", "BYTE"], "SINT" => vec!["SINT"], "USINT" => vec!["USINT"], "BYTE" => vec!["BYTE"], "BOOL" => vec!["BOOL"], _ => vec![] } }
 
-struct Gen { rng: StdRng, typed_lits: bool, strict: bool }
+struct Gen { rng: StdRng, typed_lits: bool, strict: bool, pous: bool }
 impl Gen {
     fn pick<'a, T: Copy>(&mut self, xs: &'a [T]) -> T { xs[self.rng.gen_range(0..xs.len())] }
     fn lit(&mut self, t: &str) -> J {
@@ -22,7 +22,30 @@ impl Gen {
         json!({"k":"lit","t":t,"v":v})
     }
     fn var_of(&mut self, t: &str) -> J { let tt = if self.strict || self.rng.gen_bool(0.7) { t } else { let n = narrower(t); n[self.rng.gen_range(0..n.len())] }; json!({"k":"var","n":format!("{}{}", tt.to_lowercase(), self.rng.gen_range(1..=2)), "t": tt}) }
+    fn call_f1(&mut self, d: u32) -> J {
+        let mut args = vec![json!({"n": "a", "e": self.expr("INT", d)})];
+        if self.rng.gen_bool(0.5) {
+            args.push(json!({"n": "b", "e": self.expr("INT", d)}));
+        }
+        let io = self.pick(&["cnt", "cnt", "int1", "int2"]);
+        json!({"k": "call", "fn": "f1", "args": args, "io": io})
+    }
     fn expr(&mut self, t: &str, d: u32) -> J {
+        if self.pous && d > 0 && self.rng.gen_bool(0.22) {
+            match t {
+                "INT" => return match self.rng.gen_range(0..3) {
+                    0 => self.call_f1(d - 1),
+                    1 => json!({"k": "field", "n": "st1", "fd": "x"}),
+                    _ => json!({"k": "fbout", "n": self.pick(&["fb1", "fb2"]), "fd": "total"}),
+                },
+                "BOOL" => return match self.rng.gen_range(0..3) {
+                    0 => json!({"k": "call", "fn": "f2", "args": [{"n": "p", "e": self.expr("BOOL", d - 1)}], "io": "cnt"}),
+                    1 => json!({"k": "field", "n": "st1", "fd": "y"}),
+                    _ => json!({"k": "fbout", "n": self.pick(&["fb1", "fb2"]), "fd": "q"}),
+                },
+                _ => {}
+            }
+        }
         if d == 0 || self.rng.gen_bool(0.25) { return if self.rng.gen_bool(0.5) { self.lit(t) } else { self.var_of(t) }; }
         match t {
             "BOOL" => match self.rng.gen_range(0..4) {
@@ -41,6 +64,30 @@ impl Gen {
     }
     fn block(&mut self, d: u32, in_loop: bool) -> Vec<J> { (0..self.rng.gen_range(1..=3)).map(|_| self.stmt(d, in_loop)).collect() }
     fn stmt(&mut self, d: u32, in_loop: bool) -> J {
+        if self.pous && self.rng.gen_bool(0.3) {
+            match self.rng.gen_range(0..6) {
+                0 => return json!({"k": "assignfield", "n": "st1", "fd": "x", "e": self.expr("INT", 2)}),
+                1 => return json!({"k": "assignfield", "n": "st1", "fd": "y", "e": self.expr("BOOL", 2)}),
+                2 | 3 => {
+                    let mut args = Vec::new();
+                    if self.rng.gen_bool(0.8) { args.push(json!({"n": "inc", "e": self.expr("INT", 1)})); }
+                    if self.rng.gen_bool(0.6) { args.push(json!({"n": "en2", "e": self.expr("BOOL", 1)})); }
+                    let mut outs = Vec::new();
+                    if self.rng.gen_bool(0.5) { outs.push(json!({"n": "total", "to": self.pick(&["int1", "int2"])})); }
+                    if self.rng.gen_bool(0.4) { outs.push(json!({"n": "q", "to": self.pick(&["bool1", "bool2"])})); }
+                    return json!({"k": "fbcall", "n": self.pick(&["fb1", "fb2"]), "args": args, "outs": outs});
+                }
+                4 if d > 0 => {
+                    // bounded REPEAT on usint2
+                    let lim = self.rng.gen_range(0..4);
+                    let mut b = self.block(d - 1, true);
+                    b.push(json!({"k": "assign", "n": "usint2", "e": {"k": "bin", "op": "add", "l": {"k": "var", "n": "usint2", "t": "USINT"}, "r": {"k": "lit", "t": "USINT", "v": 1}}}));
+                    return json!({"k": "repeat", "body": b, "c": {"k": "bin", "op": "gt", "l": {"k": "var", "n": "usint2", "t": "USINT"}, "r": {"k": "lit", "t": "USINT", "v": lim}}});
+                }
+                5 if in_loop => return json!({"k": "if", "c": self.expr("BOOL", 1), "t": [{"k": "continue"}], "e": []}),
+                _ => return json!({"k": "assign", "n": "int1", "e": self.call_f1(1)}),
+            }
+        }
         let choice = if d == 0 { 0 } else { self.rng.gen_range(0..10) };
         match choice {
             0..=3 => { let t = self.pick(&TYPES);
@@ -77,6 +124,14 @@ fn expr_src(e: &J, typed: bool) -> String {
         "lit" => lit_src(e["t"].as_str().unwrap(), e["v"].as_i64().unwrap(), typed),
         "var" => e["n"].as_str().unwrap().to_string(),
         "idx" => format!("arr[{}]", expr_src(&e["i"], typed)),
+        "field" | "fbout" => format!("{}.{}", e["n"].as_str().unwrap(), e["fd"].as_str().unwrap()),
+        "call" => {
+            let mut parts: Vec<String> = e["args"].as_array().unwrap().iter().map(|a| format!("{} := {}", a["n"].as_str().unwrap(), expr_src(&a["e"], typed))).collect();
+            if e["io"] != "" {
+                parts.push(format!("c := {}", e["io"].as_str().unwrap()));
+            }
+            format!("{}({})", e["fn"].as_str().unwrap(), parts.join(", "))
+        }
         "un" => format!("({} ({}))", if e["op"] == "neg" { "-" } else { "NOT" }, expr_src(&e["e"], typed)),
         _ => { let op = match e["op"].as_str().unwrap() { "add" => "+", "sub" => "-", "mul" => "*", "div" => "/", "mod" => "MOD", "and" => "AND", "or" => "OR", "xor" => "XOR", "eq" => "=", "ne" => "<>", "lt" => "<", "le" => "<=", "gt" => ">", _ => ">=" };
                format!("({} {} {})", expr_src(&e["l"], typed), op, expr_src(&e["r"], typed)) }
@@ -97,6 +152,15 @@ fn stmts_src(ss: &[J], typed: bool, ind: usize, out: &mut String) {
             "for" => { out.push_str(&format!("{p}FOR {} := {} TO {} BY {} DO\n", s["n"].as_str().unwrap(), expr_src(&s["from"], typed), expr_src(&s["to"], typed), expr_src(&s["by"], typed))); stmts_src(s["body"].as_array().unwrap(), typed, ind+2, out); out.push_str(&format!("{p}END_FOR;\n")); }
             "while" => { out.push_str(&format!("{p}WHILE {} DO\n", expr_src(&s["c"], typed))); stmts_src(s["body"].as_array().unwrap(), typed, ind+2, out); out.push_str(&format!("{p}END_WHILE;\n")); }
             "exit" => out.push_str(&format!("{p}EXIT;\n")),
+            "continue" => out.push_str(&format!("{p}CONTINUE;\n")),
+            "return" => out.push_str(&format!("{p}RETURN;\n")),
+            "assignfield" => out.push_str(&format!("{p}{}.{} := {};\n", s["n"].as_str().unwrap(), s["fd"].as_str().unwrap(), expr_src(&s["e"], typed))),
+            "fbcall" => {
+                let mut parts: Vec<String> = s["args"].as_array().unwrap().iter().map(|a| format!("{} := {}", a["n"].as_str().unwrap(), expr_src(&a["e"], typed))).collect();
+                parts.extend(s["outs"].as_array().unwrap().iter().map(|o| format!("{} => {}", o["n"].as_str().unwrap(), o["to"].as_str().unwrap())));
+                out.push_str(&format!("{p}{}({});\n", s["n"].as_str().unwrap(), parts.join(", ")));
+            }
+            "repeat" => { out.push_str(&format!("{p}REPEAT\n")); stmts_src(s["body"].as_array().unwrap(), typed, ind+2, out); out.push_str(&format!("{p}UNTIL {} END_REPEAT;\n", expr_src(&s["c"], typed))); }
             _ => {}
         }
     }
@@ -105,6 +169,7 @@ fn val_json(v: &Value) -> J {
     match v { Value::Bool(b) => json!({"t":"BOOL","v": *b as i64}), Value::SInt(x) => json!({"t":"SINT","v":x}), Value::Int(x) => json!({"t":"INT","v":x}), Value::DInt(x) => json!({"t":"DINT","v":x}),
               Value::LInt(x) => if i32::try_from(*x).is_ok() { json!({"t":"LINT","v":x}) } else { json!({"t":"BIG:LINT","v":0}) }, Value::USInt(x) => json!({"t":"USINT","v":x}), Value::UInt(x) => json!({"t":"UINT","v":x}), Value::UDInt(x) => if i32::try_from(*x).is_ok() { json!({"t":"UDINT","v":x}) } else { json!({"t":"BIG:UDINT","v":0}) },
               Value::Byte(x) => json!({"t":"BYTE","v":x}), Value::Word(x) => json!({"t":"WORD","v":x}),
+              Value::Struct(s) => json!({"t":"STRUCT","fl": s.fields.iter().map(|(k, v)| (k.to_string(), val_json(v))).collect::<serde_json::Map<String, J>>()}),
               Value::Array(a) => json!({"t":"ARRAY","lo":a.dimensions[0].0,"el":a.elements.iter().map(val_json).collect::<Vec<_>>()}), o => json!({"t":format!("OTHER:{}", tag(o)),"v":0}) }
 }
 
@@ -114,6 +179,9 @@ fn static_type(e: &J, decl: &serde_json::Map<String, J>) -> String {
         "lit" => e["t"].as_str().unwrap().to_string(),
         "var" => decl[e["n"].as_str().unwrap()]["t"].as_str().unwrap().to_string(),
         "idx" => "INT".into(),
+        "call" => if e["fn"] == "f1" { "INT".into() } else { "BOOL".into() },
+        "field" => if e["fd"] == "x" { "INT".into() } else { "BOOL".into() },
+        "fbout" => if e["fd"] == "total" { "INT".into() } else { "BOOL".into() },
         "un" => static_type(&e["e"], decl),
         _ => {
             let op = e["op"].as_str().unwrap();
@@ -181,7 +249,57 @@ fn drift_targets(ss: &[J], decl: &serde_json::Map<String, J>, out: &mut std::col
     }
 }
 
-/// `stcore-gen --seed S --runs N --profile strict|natural --out scripts.ndjson`
+fn lit_i(v: i64) -> J { json!({"k": "lit", "t": "INT", "v": v}) }
+fn var_i(n: &str) -> J { json!({"k": "var", "n": n, "t": "INT"}) }
+fn bin(op: &str, l: J, r: J) -> J { json!({"k": "bin", "op": op, "l": l, "r": r}) }
+fn asg(n: &str, e: J) -> J { json!({"k": "assign", "n": n, "e": e}) }
+/// FUNCTION / FUNCTION_BLOCK definitions: template bodies with seeded constants.
+fn pou_defs(rng: &mut StdRng) -> (J, J, String) {
+    let k = rng.gen_range(0..6i64);
+    let f1_body = match rng.gen_range(0..4) {
+        0 => vec![asg("t", bin("add", var_i("a"), var_i("b"))), asg("c", bin("add", var_i("c"), lit_i(1))),
+                  json!({"k": "if", "c": bin("gt", var_i("t"), lit_i(k)), "t": [asg("f1", var_i("t")), {"k": "return"}], "e": []}),
+                  asg("f1", bin("mul", var_i("t"), lit_i(2)))],
+        1 => vec![json!({"k": "for", "n": "t", "from": lit_i(0), "to": var_i("b"), "by": lit_i(1), "body": [asg("c", bin("add", var_i("c"), var_i("a")))]}), asg("f1", var_i("c"))],
+        2 => vec![asg("c", bin("sub", var_i("c"), lit_i(1))), asg("f1", bin("div", var_i("a"), var_i("b")))],
+        _ => vec![json!({"k": "while", "c": bin("lt", var_i("t"), var_i("b")), "body": [asg("t", bin("add", var_i("t"), lit_i(1))),
+                    {"k": "if", "c": bin("eq", var_i("t"), lit_i(k)), "t": [{"k": "continue"}], "e": []}, asg("c", bin("add", var_i("c"), var_i("t")))]}), asg("f1", var_i("c"))],
+    };
+    let bdef = rng.gen_range(0..4i64);
+    let f2_body = if rng.gen_bool(0.5) {
+        vec![asg("c", bin("add", var_i("c"), lit_i(1))), asg("f2", json!({"k": "var", "n": "p", "t": "BOOL"}))]
+    } else {
+        vec![asg("f2", json!({"k": "bin", "op": "xor", "l": {"k": "var", "n": "p", "t": "BOOL"}, "r": bin("gt", var_i("c"), lit_i(k))})), asg("c", bin("add", var_i("c"), lit_i(1)))]
+    };
+    let funcs = json!({
+        "f1": {"ret": "INT", "ins": [{"n": "a", "t": "INT", "hasdef": false, "def": 0}, {"n": "b", "t": "INT", "hasdef": true, "def": bdef}], "inout": "c", "locals": [{"n": "t", "t": "INT"}], "body": f1_body},
+        "f2": {"ret": "BOOL", "ins": [{"n": "p", "t": "BOOL", "hasdef": false, "def": 0}], "inout": "c", "locals": [], "body": f2_body},
+    });
+    let acc_body = match rng.gen_range(0..3) {
+        0 => vec![asg("n", bin("add", var_i("n"), lit_i(1))),
+                  json!({"k": "if", "c": {"k": "var", "n": "en2", "t": "BOOL"}, "t": [asg("total", bin("add", var_i("total"), var_i("inc")))], "e": []}),
+                  asg("q", bin("gt", var_i("total"), lit_i(k + 5)))],
+        1 => vec![asg("total", json!({"k": "call", "fn": "f1", "args": [{"n": "a", "e": var_i("inc")}], "io": "n"})), asg("q", json!({"k": "un", "op": "not", "e": {"k": "var", "n": "q", "t": "BOOL"}}))],
+        _ => vec![json!({"k": "repeat", "body": [asg("n", bin("add", var_i("n"), lit_i(1))), asg("total", bin("add", var_i("total"), var_i("inc")))], "c": bin("ge", var_i("n"), lit_i(k))}),
+                  asg("q", json!({"k": "var", "n": "en2", "t": "BOOL"}))],
+    };
+    let fbs = json!({"acc": {"decl": {"inc": {"t": "INT"}, "en2": {"t": "BOOL"}, "total": {"t": "INT"}, "q": {"t": "BOOL"}, "n": {"t": "INT"}},
+                             "ins": [{"n": "inc", "t": "INT"}, {"n": "en2", "t": "BOOL"}], "outs": [{"n": "total", "t": "INT"}, {"n": "q", "t": "BOOL"}], "body": acc_body}});
+    // ST text
+    let mut src = String::from("TYPE pair : STRUCT x : INT; y : BOOL; END_STRUCT END_TYPE\n");
+    let mut body = String::new();
+    stmts_src(funcs["f1"]["body"].as_array().unwrap(), true, 0, &mut body);
+    src.push_str(&format!("FUNCTION f1 : INT\nVAR_INPUT a : INT; b : INT := INT#{bdef}; END_VAR\nVAR_IN_OUT c : INT; END_VAR\nVAR t : INT; END_VAR\n{body}END_FUNCTION\n"));
+    body.clear();
+    stmts_src(funcs["f2"]["body"].as_array().unwrap(), true, 0, &mut body);
+    src.push_str(&format!("FUNCTION f2 : BOOL\nVAR_INPUT p : BOOL; END_VAR\nVAR_IN_OUT c : INT; END_VAR\n{body}END_FUNCTION\n"));
+    body.clear();
+    stmts_src(fbs["acc"]["body"].as_array().unwrap(), true, 0, &mut body);
+    src.push_str(&format!("FUNCTION_BLOCK acc\nVAR_INPUT inc : INT; en2 : BOOL; END_VAR\nVAR_OUTPUT total : INT; q : BOOL; END_VAR\nVAR n : INT; END_VAR\n{body}END_FUNCTION_BLOCK\n"));
+    (funcs, fbs, src)
+}
+
+/// `stcore-gen --seed S --runs N --profile strict|natural|pous|matrix --out scripts.ndjson`
 pub fn gen(args: &[String]) -> i32 {
     let seed = arg_u64(args, "--seed", 1);
     let runs = arg_u64(args, "--runs", 100) as usize;
@@ -189,12 +307,25 @@ pub fn gen(args: &[String]) -> i32 {
         return gen_matrix(args);
     }
     let natural = arg(args, "--profile") == Some("natural");
-    let mut g = Gen { rng: StdRng::seed_from_u64(seed ^ if natural { 0x4a7 } else { 0x57c }), typed_lits: !natural, strict: !natural };
+    let pous = arg(args, "--profile") == Some("pous");
+    let mut g = Gen { rng: StdRng::seed_from_u64(seed ^ if natural { 0x4a7 } else { 0x57c }), typed_lits: !natural, strict: !natural, pous };
     let mut o = Out::create(arg(args, "--out").expect("--out"));
     for _ in 0..runs {
         let mut decl = serde_json::Map::new();
         let mut init = serde_json::Map::new();
-        let mut src = String::from("PROGRAM P\nVAR\n");
+        let (funcs, fbs, pou_src) = if pous { pou_defs(&mut g.rng) } else { (json!({}), json!({}), String::new()) };
+        let mut src = format!("{pou_src}PROGRAM P\nVAR\n");
+        if pous {
+            src.push_str("  st1 : pair;\n  fb1 : acc;\n  fb2 : acc;\n  cnt : INT := INT#0;\n");
+            decl.insert("st1".into(), json!({"t": "STRUCT"}));
+            init.insert("st1".into(), json!({"t": "STRUCT", "fl": {"x": {"t": "INT", "v": 0}, "y": {"t": "BOOL", "v": 0}}}));
+            for n in ["fb1", "fb2"] {
+                decl.insert(n.into(), json!({"t": "FB"}));
+                init.insert(n.into(), json!({"t": "FB", "ty": "acc", "vars": {"inc": {"t": "INT", "v": 0}, "en2": {"t": "BOOL", "v": 0}, "total": {"t": "INT", "v": 0}, "q": {"t": "BOOL", "v": 0}, "n": {"t": "INT", "v": 0}}}));
+            }
+            decl.insert("cnt".into(), json!({"t": "INT"}));
+            init.insert("cnt".into(), json!({"t": "INT", "v": 0}));
+        }
         for t in TYPES {
             for i in 1..=2 {
                 let n = format!("{}{}", t.to_lowercase(), i);
@@ -213,6 +344,9 @@ pub fn gen(args: &[String]) -> i32 {
         src.push_str("END_PROGRAM\n");
         let mut drift = std::collections::BTreeSet::new();
         loop {
+            if pous {
+                break; // typed literals and same-type assignments only
+            }
             let before = drift.len();
             drift_targets(&body, &decl, &mut drift);
             if drift.len() == before {
@@ -230,7 +364,7 @@ pub fn gen(args: &[String]) -> i32 {
             }
             inputs.push(sets);
         }
-        o.line(&json!({"profile": if natural { "natural" } else { "strict" }, "decl": decl, "init": init, "body": body, "src": src,
+        o.line(&json!({"profile": if natural { "natural" } else if pous { "pous" } else { "strict" }, "funcs": funcs, "fbs": fbs, "decl": decl, "init": init, "body": body, "src": src,
                        "drift": drift.into_iter().collect::<Vec<_>>(), "inputs": inputs}));
     }
     o.flush();
@@ -265,13 +399,13 @@ pub fn run(args: &[String]) -> i32 {
                 continue;
             }
             Err(_) => {
-                o.line(&json!({"a": "Reset", "script": k, "decl": sc["decl"], "init": sc["init"], "body": sc["body"]}));
+                o.line(&json!({"a": "Reset", "script": k, "decl": sc["decl"], "init": sc["init"], "body": sc["body"], "funcs": sc["funcs"], "fbs": sc["fbs"]}));
                 o.line(&json!({"a": "Cycle", "res": "PanicInCompiler", "vars": sc["init"], "frames": 0}));
                 continue;
             }
         };
         accepted += 1;
-        o.line(&json!({"a": "Reset", "script": k, "decl": sc["decl"], "init": sc["init"], "body": sc["body"]}));
+        o.line(&json!({"a": "Reset", "script": k, "decl": sc["decl"], "init": sc["init"], "body": sc["body"], "funcs": sc["funcs"], "fbs": sc["fbs"]}));
         let decl = sc["decl"].as_object().unwrap();
         for c in 0..3 {
             if c > 0 {
@@ -280,6 +414,9 @@ pub fn run(args: &[String]) -> i32 {
                     o.line(&json!({"a": "SetVar", "n": s["n"], "t": s["t"], "v": s["v"]}));
                 }
             }
+            // generated loops are bounded (at most a few hundred iterations); a cycle that is still
+            // running after the budget is reported by the runtime as ExecutionTimeout
+            h.runtime_mut().set_execution_deadline(Some(std::time::Instant::now() + std::time::Duration::from_secs(3)));
             let r = std::panic::catch_unwind(std::panic::AssertUnwindSafe(|| h.cycle()));
             let res = match &r {
                 Err(_) => "Panic".to_string(),
@@ -293,7 +430,21 @@ pub fn run(args: &[String]) -> i32 {
             };
             let mut vars = serde_json::Map::new();
             for n in decl.keys() {
-                vars.insert(n.clone(), h.get_output(n).map(|v| val_json(&v)).unwrap_or(json!({"t": "MISSING", "v": 0})));
+                let v = h.get_output(n);
+                let j = match &v {
+                    Some(Value::Instance(id)) => {
+                        // FB instance: its scalar members by name
+                        let st = h.runtime().storage();
+                        match st.get_instance(*id) {
+                            Some(inst) => json!({"t": "FB", "ty": inst.type_name.to_ascii_lowercase(),
+                                "vars": inst.variables.iter().filter(|(k, _)| !k.starts_with("__")).map(|(k, v)| (k.to_ascii_lowercase(), val_json(v))).collect::<serde_json::Map<String, J>>()}),
+                            None => json!({"t": "MISSING", "v": 0}),
+                        }
+                    }
+                    Some(v) => val_json(v),
+                    None => json!({"t": "MISSING", "v": 0}),
+                };
+                vars.insert(n.clone(), j);
             }
             o.line(&json!({"a": "Cycle", "res": res, "vars": vars, "frames": h.runtime().storage().frames().len()}));
             if res != "ok" {
@@ -536,7 +687,7 @@ fn gen_matrix(args: &[String]) -> i32 {
         stmts_src(&body, true, 0, &mut src);
         src.push_str("END_PROGRAM\n");
         let _ = t;
-        o.line(&json!({"profile": "matrix", "decl": decl, "init": init, "body": body, "src": src, "drift": [], "inputs": [[], []]}));
+        o.line(&json!({"profile": "matrix", "funcs": {}, "fbs": {}, "decl": decl, "init": init, "body": body, "src": src, "drift": [], "inputs": [[], []]}));
     };
     for t in ints {
         let (l, h) = (lo(t), hi(t));
